@@ -10,6 +10,9 @@ K(f, fr, i, t) == [full |-> f, fraction |-> fr, isolate |-> i, ctype |-> t]
 MCClasses == {K(0, 0, FALSE, "normal"), K(0, 500, FALSE, "normal"), K(0, 1500, FALSE, "normal"), K(1, 0, TRUE, "normal"),
               K(1, 500, FALSE, "normal"), K(2, 0, FALSE, "normal"), K(0, 200, FALSE, "reserved"), K(0, 1200, FALSE, "reserved"),
               K(0, 700, FALSE, "preserve")}
+\* quick tier: six of the nine classes
+MCClassesQ == {K(0, 0, FALSE, "normal"), K(0, 500, FALSE, "normal"), K(1, 0, TRUE, "normal"), K(1, 500, FALSE, "normal"),
+               K(0, 1200, FALSE, "reserved"), K(0, 700, FALSE, "preserve")}
 CONSTANTS c1, c2, c3
 Symm == Permutations({c1, c2, c3})
 =============================================================================
